@@ -109,6 +109,23 @@ def run_cell(cell):
     if cfg.get('prefix') and sta in (6, 7):
         # what the provider processed in the data transfer state before the cell under test
         from pynetdicom2 import pdu as P
+        if cfg.get('store_in_file'):
+            # the association is established through the real AE-3 / AE-7 first, and the negotiated contexts are handed to the
+            # provider when the upper layer hands them over: the acceptor before it answers, the requestor after the A-ASSOCIATE-AC
+            # has been indicated to it (a new dictionary assigned to the documented attribute)
+            table = dict(prov.accepted_contexts)
+            prov.accepted_contexts = {}
+            if role == 'rq':
+                sm.current_state = 4
+                prov.primitive = P.AAssociateAcPDU.decode(e2.std_ac())
+                sm.action(2)
+                prov.accepted_contexts = dict(table)
+            else:
+                sm.current_state = 2
+                prov.accepted_contexts = dict(table)
+                prov.primitive = e2.make_primitive(('accept',))
+                sm.action(6)
+            env._drain(prov)
         sm.current_state = 5
         for kind, what in cfg['prefix']:
             if kind == 'pdu':
